@@ -1057,7 +1057,9 @@ func scenC02App(run *vlab.Run, sx, tmp string) {
 		if mode == "proxy-env" {
 			p := fmt.Sprintf("http://%s:%d", outsider, oport)
 			env = []string{"HTTP_PROXY=" + p, "http_proxy=" + p, "HTTPS_PROXY=" + p, "https_proxy=" + p, "NO_PROXY=", "no_proxy="}
-			if i/8%2 == 1 {
+			// (ALL_PROXY with an http URL makes the docker client library refuse to build a client at all: every
+			// probe fails with an error record and nothing is sent - visible, and no statement covers the environment)
+			if i/8%2 == 1 && kind != "docker" {
 				env = append(env, "ALL_PROXY="+p, "all_proxy="+p)
 			}
 		}
